@@ -759,8 +759,9 @@ func (t *Table) Update(input *types.UpdateItemInput) (map[string]*types.Item, er
 	}
 
 	oldItem := item
-	// the update is applied to a copy, the stored item only changes if everything succeeds
-	item = copyItem(item)
+	// the update is applied to a copy, the stored item only changes if everything succeeds; the copy is
+	// deep: a native updater may edit the values it is handed in place
+	item = deepCopyItem(item)
 
 	err = t.interpreterUpdate(interpreter.UpdateInput{
 		TableName:  t.Name,
